@@ -91,6 +91,10 @@ def run_check(pid, tier, seed):
         ctx.deadline = time.time() + 150
         ctx.notes.append(f"anchored source differs from the pinned tree ({len(anc['functions_changed'])} anchored functions, "
                          f"{len(anc['files_changed'])} files): case budget x{ctx.scale}, capped at 150 s")
+    if tier == "thorough":
+        # the thorough tier is the deep exploration: several times the nominal thorough budgets (VERIF_THOROUGH_SCALE, default 3)
+        ctx.scale = max(1, int(os.environ.get("VERIF_THOROUGH_SCALE", "3")))
+        ctx.notes.append(f"thorough tier: case budgets x{ctx.scale}")
     try:
         mod.run(ctx)
         new = [v for v in ctx.violations if not ctx.findings.known(pid, v["signature"])]
